@@ -3,7 +3,7 @@
   and the executable specifications used as oracles for C01 / C02 / C09).
 
   message text: space separated tokens
-    h=<id>,<qr>,<opcode>,<aa>,<tc>,<rd>,<ra>,<ad>,<cd>,<rcode>
+    h=<id>,<qr>,<opcode>,<aa>,<tc>,<rd>,<ra>,<ad>,<cd>,<rcode>,<z>      (the 11th field may be omitted = 0)
     q=<name>,<type>,<class>                                  (repeated, in order)
     an=<rr> | ns=<rr> | ar=<rr>                               (repeated, in order)
     rr := <name>,<type>,<class>,<ttl>,<kind>,<fields>
@@ -15,11 +15,12 @@
 import MosVerif.Model.Pack
 -- @component unpack MosVerif.WireIO.runUnpack
 -- @component pack MosVerif.WireIO.runPack
+-- @component reencode MosVerif.WireIO.runReencode
 namespace MosVerif.WireIO
 open MosVerif MosVerif.Wire
 
 def strOfHeader (h : Header) : String :=
-  s!"h={h.id},{strOfBool h.response},{h.opcode},{strOfBool h.authoritative},{strOfBool h.truncated},{strOfBool h.rd},{strOfBool h.ra},{strOfBool h.ad},{strOfBool h.cd},{h.rcode}"
+  s!"h={h.id},{strOfBool h.response},{h.opcode},{strOfBool h.authoritative},{strOfBool h.truncated},{strOfBool h.rd},{strOfBool h.ra},{strOfBool h.ad},{strOfBool h.cd},{h.rcode},{strOfBool h.z}"
 
 def strOfRData : RData → String
   | .a b => s!"a,{hexOfBytes b}"
@@ -44,7 +45,9 @@ def strOfMsg (m : Msg) : String :=
 def headerOfStr (s : String) : Option Header :=
   match (s.splitOn ",").map natOfStr with
   | [some id, some qr, some op, some aa, some tc, some rd, some ra, some ad, some cd, some rc] =>
-    some ⟨id, qr == 1, op, aa == 1, tc == 1, rd == 1, ra == 1, ad == 1, cd == 1, rc⟩
+    some ⟨id, qr == 1, op, aa == 1, tc == 1, rd == 1, ra == 1, ad == 1, cd == 1, rc, false⟩
+  | [some id, some qr, some op, some aa, some tc, some rd, some ra, some ad, some cd, some rc, some z] =>
+    some ⟨id, qr == 1, op, aa == 1, tc == 1, rd == 1, ra == 1, ad == 1, cd == 1, rc, z == 1⟩
   | _ => none
 
 def rdataOfFields : List String → Option RData
@@ -69,7 +72,7 @@ def questionOfStr (s : String) : Option Question :=
   | [n, t, c] => do pure ⟨← bytesOfHex n, ← natOfStr t, ← natOfStr c⟩
   | _ => none
 
-def emptyHeader : Header := ⟨0, false, 0, false, false, false, false, false, false, 0⟩
+def emptyHeader : Header := ⟨0, false, 0, false, false, false, false, false, false, 0, false⟩
 
 /-- Parse the message tokens among `toks` (other `k=v` tokens are ignored). -/
 def msgOfToks (toks : List String) : Option Msg :=
@@ -104,6 +107,32 @@ def runUnpack (case impl : String) : String × String :=
     -- an accepted message must be the one the model decodes (tie)
     let v := if impl == "panic" then "viol:panic" else "ok"
     (out, v)
+
+/-! ### component `reencode` (C02: what is accepted is re-encoded to the same content)
+    case: `<hex bytes>`; impl output: `err` | `packerr` | `re=<hex of decode-then-encode, no compression, no limit>` -/
+
+def runReencode (case impl : String) : String × String :=
+  match bytesOfHex case.trimAscii.toString with
+  | none => ("bad-case", "na")
+  | some bs =>
+    match unpackMsg bs with
+    | .ok m =>
+      let out := match packMsg m false 0 (msgLen m) with
+        | .ok re => s!"re={hexOfBytes re}"
+        | _ => "packerr"
+      -- specification, from the property text: an accepted message is re-encoded to wire data with the same
+      -- header (id and ALL 16 bits of the flag word — "any header bits") that decodes to the same message
+      let v :=
+        if impl == "panic" then "viol:panic"
+        else match (kvGet (words impl) "re").bind bytesOfHex with
+          | some re =>
+            if re.take 4 ≠ bs.take 4 then "viol:header-bits"
+            else match unpackMsg re with
+              | .ok m' => if m' = m then "ok" else "viol:roundtrip"
+              | _ => "viol:undecodable"
+          | none => if impl == "err" then "ok" else "viol:err"   -- (impl rejecting what the model accepts is a tie matter)
+      (out, v)
+    | _ => ("err", if impl == "panic" then "viol:panic" else "ok")
 
 /-! ### component `pack` (C02, C09)
     case: `c=<0|1> size=<n> cap=<n|len> <message tokens>`
